@@ -200,6 +200,21 @@ def duplicate_id_cases(s):
             idx += 1
             if s.mine(idx):
                 K.run_case(s, dup_txt, kind, kw, ctx={'duplicates': 'present'})
+    # one storyID twice, the two occurrences holding different items: item messages for that story
+    two = B.ro_doc('RO', 1, [gen.simple_story('A', 1), B.story('X', 'first', [B.item('x1', 'a'), B.item('x2', 'b')]),
+                            gen.simple_story('B', 1), B.story('X', 'second', [B.item('y1', 'c')])])
+    for kind, kw in [('roItemInsert', dict(story_ref='X', target='x1', carried=[B.item('n1', 'x')])),
+                     ('roItemInsert', dict(story_ref='X', target='y1', carried=[B.item('n1', 'x')])),
+                     ('roItemReplace', dict(story_ref='X', target='x2', carried=[B.item('n2', 'x')])),
+                     ('roItemReplace', dict(story_ref='X', target='y1', carried=[B.item('n2', 'x')])),
+                     ('roItemDelete', dict(story_ref='X', ids=['x1'])), ('roItemDelete', dict(story_ref='X', ids=['x1', 'y1'])),
+                     ('EAItemInsert', dict(story_ref='X', target='x2', carried=[B.item('n3', 'x')])),
+                     ('EAItemDelete', dict(story_ref='X', ids=['x2', 'gone'])),
+                     ('roItemMoveMultiple', dict(story_ref='X', ids=['x2'], target='x1')),
+                     ('EAItemSwap', dict(story_ref='X', ids=['x1', 'x2']))]:
+        idx += 1
+        if s.mine(idx):
+            K.run_case(s, two, kind, kw, ctx={'duplicates': 'one story ID twice, different items'})
     # the same inside one story: items i1 d i2 d
     for inames in (['i1', 'd', 'i2', 'd'], ['d', 'd', 'i1']):
         st = B.story('S', 'slug', [B.item(n_, 'x%d' % k_) for k_, n_ in enumerate(inames)])
